@@ -258,3 +258,20 @@ def apply_form(a, form):
     if form == "fortran2d" and a.ndim >= 2:
         return np.asfortranarray(a)
     return a
+
+
+def int_form(seed, n):
+    """The same integer as a plain int or as the numpy integer a computed value usually is (np.ceil(...).astype(int), an element of
+    np.arange, a count read from an array): an integer argument must mean the same either way."""
+    if n is None or isinstance(n, bool):
+        return n
+    k = (int(seed) // 3) % 5
+    if k == 1:
+        return np.int64(n)
+    if k == 2 and -2 ** 31 <= n < 2 ** 31:
+        return np.int32(n)
+    if k == 3 and 0 <= n < 256:
+        return np.uint8(n)
+    if k == 4 and n >= 0:
+        return np.arange(n, n + 1)[0]
+    return int(n)
